@@ -44,13 +44,17 @@ def ring_cases(B, recs, rep, stats):
                   ('rsub', lambda: 2.0 - A, [[2 * q[1] - q[0], q[1]] if i == 0 else [-q[0], q[1]] for i, q in enumerate(r['a'])]),
                   ('rmul', lambda: 3.0 * A, [[3 * q[0], q[1]] for q in r['a']])]
         near = r['fam'] == 'near'
-        if not near:
-            checks = [c for c in checks if not c[0].startswith('pow')]
+        # integer powers are ring operations (binary powering, BPowInt of the specification): the whole box, zero divisors included
+        if 'p5' in r and all(q[1] != 0 for q in r['p5']):
+            checks.append(('pow5', lambda: A ** 5, r['p5']))
+            checks.append(('pow5.0', lambda: A ** 5.0, r['p5']))
         if r['inv'] and near:
             checks.append(('div', lambda: A / Bz, r['quot']))
-        if r['ainv'] and near:
+        if r['ainv']:
             checks.append(('pow-1', lambda: A ** -1, r['pm1']))
             checks.append(('rdiv', lambda: 1.0 / A, r['pm1']))
+            if 'pm2' in r and all(q[1] != 0 for q in r['pm2']):
+                checks.append(('pow-2', lambda: A ** -2, r['pm2']))
         for name, fn, want in checks:
             w = np.array(bq(want))
             try:
